@@ -232,6 +232,10 @@ def selftest():
             proc_case("B:D?\nA:E? 'x'\nC\n", 32, [5, 3, 100]),
             {"kind": "queue", "K": 2, "ops": [{"op": "push", "n": -113}, {"op": "push", "n": -224}, {"op": "push", "n": -104},
                                               {"op": "count"}, {"op": "pop"}, {"op": "pop"}, {"op": "pop"}]}]
+    pd = procset_case(b"A:K #13abc;:B:D?\n", 64, [{"chunks": []}, {"chunks": [4, 4, 100]}])
+    pd["kind"] = "procdiff"
+    pd["expect_out"] = list(b"7\n")
+    base.append(pd)
     recs = s.execute(base, "self")
     rej = s.validate(recs, "self-ok", chunk=1)
     if rej:
@@ -242,14 +246,14 @@ def selftest():
         r = copy.deepcopy(recs[i])
         f(r["obs"])
         mutants.append((name, r))
-    mut(0, "call id changed", lambda o: o[0].__setitem__("id", 1))
+    mut(0, "call id changed", lambda o: o[0].__setitem__("id", o[0]["id"] + 1))
     mut(0, "argument byte changed", lambda o: [e for e in o if e["e"] == "call" and e["args"]][0]["args"][0]["b"].__setitem__(0, 120))
     mut(0, "response byte changed", lambda o: [e for e in o if e["e"] == "out"][0]["b"].__setitem__(1, 65))
     mut(0, "flush dropped", lambda o: o.remove([e for e in o if e["e"] == "flush"][0]))
     mut(0, "two calls swapped", lambda o: o.__setitem__(slice(0, 1), []) or o.insert(3, {"e": "call", "id": 0, "args": []}))
     mut(1, "error number changed", lambda o: [e for e in o if e["e"] == "err"][0].__setitem__("n", -999))
     mut(1, "error reported twice", lambda o: o.insert(2, copy.deepcopy([e for e in o if e["e"] == "err"][0])))
-    mut(1, "call after the faulty message dropped", lambda o: o.remove([e for e in o if e["e"] == "call" and e["id"] == 2][0]))
+    mut(1, "call after the faulty message dropped", lambda o: o.remove([e for e in o if e["e"] == "call"][-1]))
     mut(2, "transport flush dropped", lambda o: o.remove([e for e in o if e["e"] == "aflush"][0]))
 
     def move_write(o):
@@ -261,6 +265,8 @@ def selftest():
     mut(2, "process returned Ok", lambda o: o[-1].__setitem__("res", "ok"))
     mut(3, "queue count wrong", lambda o: [e for e in o if e["r"] == "count"][0].__setitem__("c", 3))
     mut(3, "overflow marker missing", lambda o: [e for e in o if e["r"] == "pop"][1].__setitem__("n", -224))
+    mut(4, "one schedule lost its response", lambda o: o["v"][1].remove([e for e in o["v"][1] if e["e"] == "write"][0]))
+    mut(4, "one schedule called another handler", lambda o: [e for e in o["v"][1] if e["e"] == "call"][0].__setitem__("id", 0))
     bad = 0
     for name, r in mutants:
         rej = s.validate([r], "self-" + str(abs(hash(name)) % 10**6), chunk=1)
